@@ -26,6 +26,7 @@ func init() {
 			"S9 the lock file is removed only behind readOnly() == false; S10 the pipestance-level metadata cache is rescanned only by Lock or behind readOnly()/the readOnly parameter being false (Immortalize tabled). " +
 			"S11 re-attach applies os.ExpandEnv when InvokePipeline does. " +
 			"S12 a loop of the syntax package that skips elements by a set lookup keys the set by everything the skipped calls depend on. " +
+			"S5 (round 9): the wildcard escape holds only if the loop continues from there. " +
 			"NOT decided: completeness (that cosmetic edits are accepted), races between two simultaneous first starts.",
 		Assumptions: commonAssumptions,
 	}
@@ -814,7 +815,11 @@ func ruleS5(c *an.Ctx) {
 						return true
 					}
 					if sp.escape != nil && sp.escape(r) {
-						return true
+						// the escape skips THIS element: the loop must go on from there (a `break` at
+						// the wildcard leaves the entries after it uncompared - round 9)
+						if blockReaches(to, S.Block()) {
+							return true
+						}
 					}
 					// map range: loop exit edge belongs to the header, not to an iteration
 					if nx, isNext := S.(*ssa.Next); isNext {
@@ -909,4 +914,26 @@ func ruleS6(c *an.Ctx) {
 			"a parameter may be accepted without comparing GetTname() only where IsFile() == KindIsFile was established (file type names are cosmetic; struct, map and array-of-file types are not); "+c.WitnessString(w))
 	}
 	c.Floor("S6", "functions comparing the declared type names of parameters", n, 1)
+}
+
+// blockReaches: b can reach target along CFG edges (b == target counts).
+func blockReaches(b, target *ssa.BasicBlock) bool {
+	seen := map[*ssa.BasicBlock]bool{}
+	var walk func(x *ssa.BasicBlock) bool
+	walk = func(x *ssa.BasicBlock) bool {
+		if x == target {
+			return true
+		}
+		if seen[x] {
+			return false
+		}
+		seen[x] = true
+		for _, s := range x.Succs {
+			if walk(s) {
+				return true
+			}
+		}
+		return false
+	}
+	return walk(b)
 }
